@@ -657,7 +657,11 @@ async fn run_file_inner(col: &Col, var: Variant, fo: &FileOpts, seed: u64, id: u
         };
         // keep tiled full scans small in the trace: only the rows of a few copies
         let (rows, got) = if kind == "full" && total > 6 && error.is_empty() && got.len() == total {
-            let keep: Vec<usize> = (0..total).filter(|r| *r < 2 * rows_per(rows.len(), fo.reps) || *r >= total - 2 * rows_per(rows.len(), fo.reps) || (r / 97) % 11 == 3).collect();
+            let per = rows_per(rows.len(), fo.reps);
+            let stride = total / 24 + 1;
+            let keep: Vec<usize> = (0..total)
+                .filter(|r| *r < 2 * per || *r >= total - 2 * per || (r % stride) < per)
+                .collect();
             (keep.clone(), keep.iter().map(|r| got[*r].clone()).collect())
         } else {
             (rows, got)
@@ -714,7 +718,9 @@ fn main() {
         "item-all-valid" => Mutation::ItemAllValid,
         m => panic!("unknown mutation {m}"),
     };
-    std::panic::set_hook(Box::new(|_| {}));
+    if std::env::var("VH_SHOW_PANICS").is_err() {
+        std::panic::set_hook(Box::new(|_| {}));
+    }
     let rt = tokio::runtime::Builder::new_multi_thread()
         .worker_threads(2)
         .enable_all()
